@@ -482,20 +482,21 @@ def capped_passes(cap):
         B.accept_metropolis = saved
 
 
-def run_plain(start, end, case):
-    """one alignment on the implementation.  Returns (ali, exception or None); run_plain.nan_trials = number of passes
+def run_plain(start, end, case, ali=None):
+    """one alignment on the implementation (on the Alignment object `ali` when given, else on a fresh one).  Returns (ali, exception or None); run_plain.nan_trials = number of passes
     of that run whose trial measure was nan"""
     import gaddlemaps._alignment as A
     restr, deform, ign, autog = call_args(case)
     state = np.random.get_state()
     err = None
-    ali = None
     run_plain.nan_trials = 0
     try:
         with steps_factor(case["sf"]), contextlib.redirect_stdout(io.StringIO()), np.errstate(all="ignore"), \
-                capped_passes(pass_cap(case, min(len(start), len(end)))) as count:
+                capped_passes(pass_cap(case, min(len(ali.start), len(ali.end)) if ali is not None
+                                       else min(len(start), len(end)))) as count:
             np.random.seed(case["seed"])
-            ali = A.Alignment(start, end)
+            if ali is None:
+                ali = A.Alignment(start, end)
             try:
                 ali.align_molecules(restr, deform, ign, autog)
             except Exception as ex:     # noqa
@@ -644,10 +645,15 @@ class Recorder:
         return False
 
 
-def run_recorded(case):
-    """the implementation under the recorder; returns the observation (plain data)"""
+def run_recorded(case, ali=None):
+    """the implementation under the recorder; returns the observation (plain data).  With `ali` the call is made on that
+    (re-used) Alignment object and the model's inputs are the VALUES of its start / end when the call starts (the
+    setters copy: value semantics)"""
     import gaddlemaps._alignment as A
-    start, end = build(case["start"], "MOLA"), build(case["end"], "MOLB")
+    if ali is None:
+        start, end = build(case["start"], "MOLA"), build(case["end"], "MOLB")
+    else:
+        start, end = ali.start, ali.end
     view_s, view_e = mol_view(start), mol_view(end)
     restr, deform, ign, autog = call_args(case)
     state = np.random.get_state()
@@ -657,7 +663,8 @@ def run_recorded(case):
     try:
         with steps_factor(case["sf"]), contextlib.redirect_stdout(io.StringIO()), np.errstate(all="ignore"):
             np.random.seed(case["seed"])
-            ali = A.Alignment(start, end)
+            if ali is None:
+                ali = A.Alignment(start, end)
             with rec:
                 try:
                     ali.align_molecules(restr, deform, ign, autog)
@@ -672,6 +679,24 @@ def run_recorded(case):
     if err is None and not runaway:
         obs["start"], obs["end"] = snapshot(ali.start), snapshot(ali.end)
     return obs
+
+
+def run_recorded_reuse(case):
+    """K on a re-used Alignment object: one (options, observation) per align operation"""
+    import gaddlemaps._alignment as A
+    with contextlib.redirect_stdout(io.StringIO()):
+        ali = A.Alignment(build(case["start"], "MOLA"), build(case["end"], "MOLB"))
+    out = []
+    for op in case["ops"]:
+        if op["op"] != "align":
+            which = op["op"][4:]
+            setattr(ali, which, reconfigured(case[which], op, "MOLA" if which == "start" else "MOLB"))
+            continue
+        obs = run_recorded(op, ali=ali)
+        out.append((op, obs))
+        if obs["runaway"]:
+            break
+    return out
 
 
 def protocol_check(case, obs):
@@ -828,6 +853,62 @@ def in_domain(case, start, end):
     return True
 
 
+def judge(case, before_s, before_e, adj_s, adj_e, after_s, after_e, nan_trials):
+    """the structure clauses of C06 for one align_molecules call: `before_*` = the two molecules as the call found them
+    (snapshots), `after_*` = Alignment.start / Alignment.end afterwards.  Returns the list of failed clauses."""
+    bad = []
+    ns, ne = before_s["n"], before_e["n"]
+    # order, count and names
+    for tag, b, a in (("start", before_s, after_s), ("end", before_e, after_e)):
+        if a["n"] != b["n"] or a["names"] != b["names"] or a["ids"] != b["ids"] or a["atom_resnames"] != b["atom_resnames"]:
+            bad.append("atom order / names of the %s molecule changed" % tag)
+    if bad:
+        return bad
+    if not (np.isfinite(after_s["pos"]).all() and np.isfinite(after_e["pos"]).all()):
+        bad.append("non-finite coordinates after the alignment (%d of %d in start, %d of %d in end; %d nan trial "
+                   "configurations were judged during the search)" %
+                   (int((~np.isfinite(after_s["pos"])).sum()), after_s["pos"].size,
+                    int((~np.isfinite(after_e["pos"])).sum()), after_e["pos"].size, nan_trials))
+        return bad
+    d = before_e["pos"].mean(axis=0) - before_s["pos"].mean(axis=0)
+    if ns < ne:
+        fixed_tag, mob_b, mob_a, mob_adj = "end", before_s, after_s, adj_s
+        if not bits_equal(after_e["pos"], before_e["pos"]):
+            bad.append("the end molecule has more atoms and was touched (max |dx| = %.3g)" %
+                       np.abs(after_e["pos"] - before_e["pos"]).max())
+    else:
+        fixed_tag, mob_b, mob_a, mob_adj = "start", before_e, after_e, adj_e
+        dev = np.abs(after_s["pos"] - (before_s["pos"] + d)).max()
+        if dev > TOL:
+            bad.append("the start molecule (not smaller than end) is not its input translated by "
+                       "centre(end) - centre(start): max deviation %.3g nm" % dev)
+    n = mob_b["n"]
+    if ne == 1 and not bits_equal(after_e["pos"], before_e["pos"]):
+        bad.append("single-atom end molecule was touched")
+    # bonded distances of the other molecule when its bond graph is acyclic.  Degenerate geometries: a bond of length
+    # zero has no direction to restore, and a run in which numpy produced a nan trial (0/0) is judged on the clauses
+    # that stay meaningful (finiteness above all): bonds are compared where the initial length is non-zero and no nan
+    # trial occurred
+    if is_tree(n, mob_adj) and not nan_trials:
+        worst = 0.0
+        for i, l in enumerate(mob_adj):
+            for j in l:
+                d0 = np.linalg.norm(mob_b["pos"][i] - mob_b["pos"][j])
+                if d0 == 0.0:
+                    continue
+                worst = max(worst, abs(np.linalg.norm(mob_a["pos"][i] - mob_a["pos"][j]) - d0))
+        if worst > TOL:
+            bad.append("a bonded distance of the mobile (%s) molecule changed by %.3g nm (acyclic bond graph)" %
+                       ("start" if ns < ne else "end", worst))
+    # all pairwise distances when single-atom moves are disabled
+    eff = case["deform"] if case["deform"] is not None else ([0] if (ns == 1 or ne == 1) else [0, 1, 2])
+    if 2 not in eff:
+        dev = np.abs(pair_dists(mob_a["pos"]) - pair_dists(mob_b["pos"])).max() if n else 0.0
+        if dev > TOL:
+            bad.append("single-atom moves disabled but a pairwise distance of the mobile molecule changed by %.3g nm" % dev)
+    return bad
+
+
 def oracle_case(case, repeat=True):
     """evaluates the clauses of C06 on one alignment.  Returns (list of failed clauses, outcome) where outcome =
     final positions of both molecules as hex strings (None when the call raised)."""
@@ -854,56 +935,10 @@ def oracle_case(case, repeat=True):
         bad.append("align_molecules raised %r on an input of the property's domain" % (err,))
         return bad, None
     after_s, after_e = snapshot(ali.start), snapshot(ali.end)
-    ns, ne = before_s["n"], before_e["n"]
-    # order, count and names
-    for tag, b, a in (("start", before_s, after_s), ("end", before_e, after_e)):
-        if a["n"] != b["n"] or a["names"] != b["names"] or a["ids"] != b["ids"] or a["atom_resnames"] != b["atom_resnames"]:
-            bad.append("atom order / names of the %s molecule changed" % tag)
+    nan_trials = run_plain.nan_trials
+    bad += judge(case, before_s, before_e, adj_s, adj_e, after_s, after_e, nan_trials)
     if bad:
         return bad, None
-    if not (np.isfinite(after_s["pos"]).all() and np.isfinite(after_e["pos"]).all()):
-        bad.append("non-finite coordinates after the alignment (%d of %d in start, %d of %d in end; %d nan trial "
-                   "configurations were judged during the search)" %
-                   (int((~np.isfinite(after_s["pos"])).sum()), after_s["pos"].size,
-                    int((~np.isfinite(after_e["pos"])).sum()), after_e["pos"].size, run_plain.nan_trials))
-        return bad, None
-    d = before_e["pos"].mean(axis=0) - before_s["pos"].mean(axis=0)
-    if ns < ne:
-        fixed_tag, mob_b, mob_a, mob_adj = "end", before_s, after_s, adj_s
-        if not bits_equal(after_e["pos"], before_e["pos"]):
-            bad.append("the end molecule has more atoms and was touched (max |dx| = %.3g)" %
-                       np.abs(after_e["pos"] - before_e["pos"]).max())
-    else:
-        fixed_tag, mob_b, mob_a, mob_adj = "start", before_e, after_e, adj_e
-        dev = np.abs(after_s["pos"] - (before_s["pos"] + d)).max()
-        if dev > TOL:
-            bad.append("the start molecule (not smaller than end) is not its input translated by "
-                       "centre(end) - centre(start): max deviation %.3g nm" % dev)
-    n = mob_b["n"]
-    if ne == 1 and not bits_equal(after_e["pos"], before_e["pos"]):
-        bad.append("single-atom end molecule was touched")
-    # bonded distances of the other molecule when its bond graph is acyclic.  Degenerate geometries: a bond of length
-    # zero has no direction to restore, and a run in which numpy produced a nan trial (0/0) is judged on the clauses
-    # that stay meaningful (finiteness above all): bonds are compared where the initial length is non-zero and no nan
-    # trial occurred
-    nan_trials = run_plain.nan_trials
-    if is_tree(n, mob_adj) and not nan_trials:
-        worst = 0.0
-        for i, l in enumerate(mob_adj):
-            for j in l:
-                d0 = np.linalg.norm(mob_b["pos"][i] - mob_b["pos"][j])
-                if d0 == 0.0:
-                    continue
-                worst = max(worst, abs(np.linalg.norm(mob_a["pos"][i] - mob_a["pos"][j]) - d0))
-        if worst > TOL:
-            bad.append("a bonded distance of the mobile (%s) molecule changed by %.3g nm (acyclic bond graph)" %
-                       ("start" if ns < ne else "end", worst))
-    # all pairwise distances when single-atom moves are disabled
-    eff = case["deform"] if case["deform"] is not None else ([0] if (ns == 1 or ne == 1) else [0, 1, 2])
-    if 2 not in eff:
-        dev = np.abs(pair_dists(mob_a["pos"]) - pair_dists(mob_b["pos"])).max() if n else 0.0
-        if dev > TOL:
-            bad.append("single-atom moves disabled but a pairwise distance of the mobile molecule changed by %.3g nm" % dev)
     outcome = {"start": [x.hex() for x in after_s["pos"].ravel()], "end": [x.hex() for x in after_e["pos"].ravel()],
                "nan_trials": int(nan_trials)}
     # bit-identical when repeated with the same seed
@@ -918,11 +953,137 @@ def oracle_case(case, repeat=True):
     return bad, outcome
 
 
+def reconfigured(spec, op, molname):
+    """a new Molecule object of the same species in another configuration: positions R.p + shift (`rot`, `shift`)"""
+    mol = build(spec, molname)
+    R = np.array(op.get("rot", np.eye(3)), dtype=float)
+    mol.atoms_positions = np.array(mol.atoms_positions, dtype=float) @ R.T + np.array(op.get("shift", [0, 0, 0]), dtype=float)
+    return mol
+
+
+def run_reuse_once(case, judge_it=True):
+    """ONE Alignment object driven through case["ops"]: {"op": "align", options...} | {"op": "set_start" | "set_end",
+    "rot", "shift"} (assignment of an equal molecule in another configuration: the documented way to re-use the object).
+    Every Molecule ever handed to the object is snapshotted when it is handed over and compared bit for bit after EVERY
+    later operation.  Returns (failed clauses, outcomes of the align operations)."""
+    import gaddlemaps._alignment as A
+    start, end = build(case["start"], "MOLA"), build(case["end"], "MOLB")
+    handed = [("start molecule given to the constructor", start, snapshot(start)),
+              ("end molecule given to the constructor", end, snapshot(end))]
+    with contextlib.redirect_stdout(io.StringIO()):
+        ali = A.Alignment(start, end)
+    bad, outcomes = [], []
+
+    def callers_untouched(after):
+        for what, mol, snap in handed:
+            if not same_snapshot(snapshot(mol), snap):
+                bad.append("%s was modified (found after %s; max |dx| = %.3g nm)" %
+                           (what, after, float(np.abs(np.array(mol.atoms_positions) - snap["pos"]).max())
+                            if len(mol) == snap["n"] else float("nan")))
+    callers_untouched("construction")
+    for k, op in enumerate(case["ops"]):
+        if bad:
+            break
+        if op["op"] in ("set_start", "set_end"):
+            which = op["op"][4:]
+            mol = reconfigured(case[which], op, "MOLA" if which == "start" else "MOLB")
+            handed.append(("the %s molecule assigned in operation #%d" % (which, k), mol, snapshot(mol)))
+            setattr(ali, which, mol)
+            callers_untouched("the assignment #%d" % k)
+            continue
+        if not in_domain(op, ali.start, ali.end):
+            outcomes.append(None)
+            continue
+        before_s, before_e = snapshot(ali.start), snapshot(ali.end)
+        adj_s, adj_e = mol_view(ali.start)[1], mol_view(ali.end)[1]
+        _, err = run_plain(None, None, op, ali=ali)
+        callers_untouched("align_molecules #%d" % k)
+        if err is not None:
+            if isinstance(err, RunAway):
+                outcomes.append({"runaway": True})
+                break
+            if not isinstance(err, OSError):
+                bad.append("align_molecules #%d raised %r on an input of the property's domain" % (k, err))
+            outcomes.append(None)
+            continue
+        after_s, after_e = snapshot(ali.start), snapshot(ali.end)
+        if judge_it:
+            bad += ["align_molecules #%d: %s" % (k, b) for b in
+                    judge(op, before_s, before_e, adj_s, adj_e, after_s, after_e, run_plain.nan_trials)]
+        outcomes.append({"start": [x.hex() for x in after_s["pos"].ravel()], "end": [x.hex() for x in after_e["pos"].ravel()]})
+    return bad, outcomes
+
+
+def oracle_reuse(case, repeat=True):
+    bad, outcomes = run_reuse_once(case)
+    if not bad and repeat:
+        bad2, outcomes2 = run_reuse_once(case, judge_it=False)
+        if bad2 or outcomes2 != outcomes:
+            bad.append("the same sequence of operations with the same seeds on a fresh Alignment object gave a different outcome")
+    return bad, {"reuse": outcomes}
+
+
+def oracle_any(case, repeat=True):
+    return oracle_reuse(case, repeat) if case.get("kind") == "reuse" else oracle_case(case, repeat)
+
+
+def random_rotation(rs):
+    q, r = np.linalg.qr(rs.normal(size=(3, 3)))
+    q = q * np.sign(np.diag(r))
+    if np.linalg.det(q) < 0:
+        q[:, 0] = -q[:, 0]
+    return q
+
+
+def gen_reuse_case(rs, base=None):
+    """one Alignment object: align, then 2-4 more alignments, before each of which start and/or end may be re-assigned
+    with an equal molecule in another configuration (at least one re-assignment of each kind of role over the stream)"""
+    c = base or gen_case(rs, mobile_tree=bool(rs.randint(2)))
+    ns = len(c["start"].get("atoms", [])) or c.get("ns")
+    ne = len(c["end"].get("atoms", [])) or c.get("ne")
+
+    def align_op():
+        o = gen_options(rs, ns, ne)
+        o["op"] = "align"
+        o["sf"] = min(o["sf"], 8)
+        if o["restr"] is None and len(set(a[1] for a in c["start"].get("atoms", []))) > 1:
+            o["restr"] = []
+        return o
+
+    def set_op(which):
+        return {"op": "set_" + which, "rot": random_rotation(rs).tolist(), "shift": rs.uniform(-2, 2, size=3).tolist()}
+    first = align_op()
+    first.update({k: c[k] for k in ("restr", "deform", "ign", "autog", "seed") if k in c})
+    ops = [first]
+    forced = ["start", "end", "both"][int(rs.randint(3))]
+    for n in range(int(rs.randint(2, 5))):
+        r = rs.randint(0, 5)
+        which = forced if n == 0 else ("start" if r == 0 else "end" if r == 1 else "both" if r == 2 else None)
+        if which in ("start", "both"):
+            ops.append(set_op("start"))
+        if which in ("end", "both"):
+            ops.append(set_op("end"))
+        ops.append(align_op())
+    return {"kind": "reuse", "start": c["start"], "end": c["end"], "ops": ops}
+
+
+def reuse_witness_case():
+    """seeded/C06-6/demo.py: vitamin E CG (10 beads, start) on VTE_AA (32 atoms, end), STEPS_FACTOR 20, seed 3; then a
+    second configuration of the CG molecule (rotated by 90 degrees about z and shifted) is assigned to the same object and
+    aligned again"""
+    opt = {"op": "align", "restr": None, "deform": None, "ign": True, "autog": True, "sf": 20, "seed": 3}
+    return {"kind": "reuse", "start": {"shipped": ["VTE_map.gro", "vitamin_E_CG.itp"]},
+            "end": {"shipped": ["VTE_AA.gro", "VTE_AA.itp"]},
+            "ops": [dict(opt), {"op": "set_start", "rot": [[0, -1, 0], [1, 0, 0], [0, 0, 1]], "shift": [1.5, -0.7, 2.0]},
+                    dict(opt), {"op": "set_end", "rot": [[1, 0, 0], [0, 0, -1], [0, 1, 0]], "shift": [-0.5, 0.25, 1.0]},
+                    dict(opt, seed=4)]}
+
+
 def run_session_here(cases, repeat=True):
     """oracle on the cases one after the other in THIS process"""
     out = []
     for c in cases:
-        bad, outcome = oracle_case(c, repeat=repeat)
+        bad, outcome = oracle_any(c, repeat=repeat)
         out.append({"bad": bad, "outcome": outcome})
         molgen.purge()
     return out
@@ -999,7 +1160,8 @@ def check_sessions(ctx, sessions, tag, jobs=14):
             # does the failing alignment fail on its own (fresh process, nothing aligned before)?
             alone, _ = collect_session(spawn_session([sess["cases"][n]], 20))
             if alone and alone[0]["bad"]:
-                ctx.violation("alignment: " + "; ".join(alone[0]["bad"]), dict(sess["cases"][n], kind="pair"), key=tag)
+                ctx.violation("alignment: " + "; ".join(alone[0]["bad"]),
+                              dict(sess["cases"][n], kind=sess["cases"][n].get("kind", "pair")), key=tag)
             else:
                 ctx.violation("alignment #%d of a sequence of %d alignments in one process: %s  -- the same alignment "
                               "alone in a fresh process satisfies the property: the outcome depends on what was aligned "
@@ -1041,8 +1203,13 @@ def corpus(ctx):
     cases = corpus_cases()
     S["corpus"] = len(cases)
     S["corpus_nan_trials"] = 0
+    cases.append(reuse_witness_case())
+    rs = np.random.RandomState(607)
+    for sizes in ((3, 7), (6, 6), (8, 4)):
+        cases.append(gen_reuse_case(rs, base=gen_case(rs, sizes=sizes, mobile_tree=True)))
+    S["corpus"] = len(cases)
     for c in cases:
-        bad, out = oracle_case(c)
+        bad, out = oracle_any(c)
         S["corpus_nan_trials"] += (out or {}).get("nan_trials", 0)
         ctx.count(("corpus", json.dumps(c, sort_keys=True)))
         if bad:
@@ -1077,6 +1244,8 @@ def gen_K_cases(ctx, rs):
         cases.append(gen_error_case(rs))
     for _ in range(ctx.n(14, 120)):
         cases.append(gen_degenerate_case(rs, sf_range=(6, 13)))
+    for _ in range(ctx.n(6, 50)):
+        cases.append(gen_reuse_case(rs))
     return cases
 
 
@@ -1091,12 +1260,28 @@ def correspondence(ctx):
     terms, meta, proto = [], [], []
     hist = {"tie": 0, "start_mobile": 0, "end_mobile": 0, "no_optimiser_call": 0, "error": 0, "passes": 0,
             "accepted": 0, "kind0": 0, "kind1": 0, "kind2": 0, "hydrogens_filtered": 0, "restrained": 0, "shipped": 0,
-            "mobile_cyclic": 0, "runaway_skipped": 0, "degenerate": 0, "nan_trials_rejected": 0}
+            "mobile_cyclic": 0, "runaway_skipped": 0, "degenerate": 0, "nan_trials_rejected": 0, "reused_objects": 0}
     sizes = {}
     t0 = time.time()
+    flat = []
     for c in cases:
-        obs = run_recorded(c)
+        if c.get("kind") == "reuse":
+            hist["reused_objects"] += 1
+            for n, (op, obs) in enumerate(run_recorded_reuse(c)):
+                # replayable on its own account: the whole sequence up to this alignment
+                ops, seen = [], 0
+                for o in c["ops"]:
+                    ops.append(o)
+                    if o["op"] == "align":
+                        seen += 1
+                        if seen == n + 1:
+                            break
+                flat.append((dict(c, ops=ops, restr=op["restr"], deform=op["deform"], ign=op["ign"], sf=op["sf"],
+                                  seed=op["seed"], autog=op.get("autog", True)), obs))
+        else:
+            flat.append((c, run_recorded(c)))
         molgen.purge()
+    for c, obs in flat:
         rec = obs["rec"]
         if obs["runaway"]:
             hist["runaway_skipped"] += 1
@@ -1166,7 +1351,7 @@ def correspondence(ctx):
     # 4.5: the property oracle on each disagreeing input
     for d in dis[:30]:
         c = {k: v for k, v in d.items() if k not in ("code", "protocol")}
-        bad, _ = oracle_case(c)
+        bad, _ = oracle_any(c)
         molgen.purge()
         if bad:
             ctx.violation("alignment: " + "; ".join(bad), c, key="pair")
@@ -1207,7 +1392,13 @@ def oracle(ctx, scale):
     n_deg = ctx.n(10, 60) * scale
     for _ in range(n_deg):          # degenerate mobile molecules, single-atom moves enabled
         sessions.append({"kind": "session", "cases": [gen_degenerate_case(rs) for _ in range(int(rs.randint(3, 7)))]})
-    hist = {"tie": 0, "start_mobile": 0, "end_mobile": 0, "degenerate": 0}
+    n_reuse = ctx.n(12, 80) * scale
+    for _ in range(n_reuse):        # one Alignment object re-used: re-assignments and several alignments in a row
+        cs = [gen_reuse_case(rs) for _ in range(int(rs.randint(1, 4)))]
+        if rs.randint(2):
+            cs.insert(int(rs.randint(len(cs) + 1)), gen_case(rs))
+        sessions.append({"kind": "session", "cases": cs})
+    hist = {"tie": 0, "start_mobile": 0, "end_mobile": 0, "degenerate": 0, "reused_objects": 0, "reassignments": 0}
     for s in sessions:
         for c in s["cases"]:
             ns = len(c["start"].get("atoms", [])) or 0
@@ -1216,6 +1407,11 @@ def oracle(ctx, scale):
                 hist["tie" if ns == ne else ("start_mobile" if ns < ne else "end_mobile")] += 1
             if c.get("degenerate"):
                 hist["degenerate"] += 1
+            if c.get("kind") == "reuse":
+                hist["reused_objects"] += 1
+                hist["reassignments"] += sum(1 for o in c["ops"] if o["op"] != "align")
+                ctx.count(("S-reuse", json.dumps(c["ops"], sort_keys=True)[:400], ns, ne))
+                continue
             ctx.count(("S", c["seed"], ns, ne))
     fails = check_sessions(ctx, sessions, "session")
     S["sessions_x%d" % scale] = len(sessions)
@@ -1237,9 +1433,9 @@ def replay(ctx, obj):
                 return False
         print("all alignments of the session satisfy the property")
         return True
-    if r.get("kind") == "pair" or "start" in r:
+    if r.get("kind") in ("pair", "reuse") or "start" in r:
         c = {k: v for k, v in r.items() if k not in ("code", "protocol")}
-        bad, _ = oracle_case(c)
+        bad, _ = oracle_any(c)
         print(bad)
         return not bad
     print("replay names a proof/correspondence, not an input:", str(r)[:300])
